@@ -1,6 +1,7 @@
 package main
 
 import (
+	"regexp"
 	"fmt"
 	"math"
 	"strconv"
@@ -303,8 +304,13 @@ func fitsInt64(v *variants.Variant) bool {
 		f = float64(v.AsFloat())
 	case variants.Double:
 		f = v.AsDouble()
+	case variants.String:
+		// a text that does not spell a number denotes none (what converting it to a number gives - zero, an error - is not stated)
+		return anyNumeral.MatchString(strings.TrimSpace(v.AsString()))
 	default:
 		return true
 	}
 	return !math.IsNaN(f) && !math.IsInf(f, 0) && math.Abs(f) < 9223372036854775808.0
 }
+
+var anyNumeral = regexp.MustCompile(`^[+-]?([0-9]+(\.[0-9]*)?|\.[0-9]+)([eE][+-]?[0-9]+)?$`)
